@@ -50,6 +50,18 @@ def run(ctx, FS):
 
 def gates(ctx, r, F):
     envs = layout.variant_envs(F)
+    RM = layout.text_reader_evaluated(F)
+    if RM is not None and envs is not None:
+        # decided by abstract evaluation of the parser (rmodel): length gate on a dense range of lengths, every combination of
+        # prefix / decoder / validity outcomes at the right lengths, decoder windows
+        ctx.instance(r, RM["evaluations"])
+        msg = "; ".join(RM["bad"][:3])
+        ctx.ob(r, ("from_str_bytes", "gate-order-and-error-kinds"), not RM["bad"], msg, cfg=F.key, where=RM["body"].where(), detail={"evaluations": RM["evaluations"], "engine": "evaluation"})
+        vals = {nm: (env["assoc:LEN_IN_STR"], env["assoc:LEN_IN_STR_EXCEPT_PREFIX"]) for nm, env in envs}
+        ctx.ob(r, ("LEN_IN_STR", "values"), all(a - 2 == e for a, e in vals.values()) and {v[0] for v in vals.values()} == {32, 72, 76, 136, 140},
+               "(LEN_IN_STR, LEN_IN_STR_EXCEPT_PREFIX) per variant %s; reference 32/72/76/136/140 and LEN-2" % vals, cfg=F.key)
+        ctx.ob(r, ("from_str_bytes", "decoder-window-lengths"), not [x for x in RM["bad"] if "decoder" in x or "panics" in x], msg, cfg=F.key, where=RM["body"].where())
+        return
     R, err = layout.text_reader(F)
     ctx.instance(r)
     if R is None or envs is None:
